@@ -40,7 +40,7 @@ func prelude(body string) string {
 	b.WriteString("(declare-fun isEOF (Int) Bool)\n(declare-fun isUEOF (Int) Bool)\n(declare-fun isCRC (Int) Bool)\n(assert (and (not (isEOF 0)) (not (isUEOF 0)) (not (isCRC 0))))\n")
 	b.WriteString("(declare-fun mkiface (Int Int) Int)\n(declare-fun dyntag (Int) Int)\n(declare-fun payload (Int) Int)\n")
 	b.WriteString("(declare-fun sub (Int Int) Int)\n(declare-fun subp (Int) Int)\n(declare-fun subi (Int) Int)\n")
-	b.WriteString("(declare-fun stridx (Str Str) Int)\n(declare-fun crcrange (Int Int Int) Int)\n")
+	b.WriteString("(declare-fun stridx (Str Str) Int)\n(declare-fun crcrange (Int Int Int) Int)\n(declare-fun strle (Str Str) Bool)\n")
 	b.WriteString("(declare-fun byteof (Int Int) Int)\n")
 	// assembling a little-endian word from its bytes is linear, so it is defined, not axiomatised
 	b.WriteString("(define-fun le16 ((b0 Int) (b1 Int)) Int (+ b0 (* 256 b1)))\n")
@@ -340,6 +340,9 @@ func solveAll(units []*UnitResult, filter func(*Oblig) bool, timeout int, thorou
 	var jobs []job
 	for _, u := range units {
 		for _, o := range u.Obs {
+			if o.Solver == "syntactic" {
+				continue // decided by the generator
+			}
 			if filter == nil || filter(o) {
 				jobs = append(jobs, job{u.engine, o})
 			}
